@@ -223,6 +223,42 @@ func main() {
 				c.Outcome(fmt.Sprintf("vx=%v vd=%v", vx, vd))
 			}
 		}})
+	// 3b. the reserved third descriptor byte of an externally supplied public key
+	ck.Domains = append(ck.Domains, &drv.Domain{Name: "reserved-descriptor-byte", Size: 255 * 3 * 16 * 2, Chunk: 255,
+		Desc: "pk[2] (the descriptor byte no parameter lives in) = 1..255 x 3 hash functions x 16 height nibbles x 2 body fills: GetXMSSAddressFromPK and GetLegacyXMSSAddressFromPK still give descriptor(b0,b1,00) || digest(pk as given), and the results pass their validators",
+		Run: func(c *drv.Ctx, lo, hi int64) {
+			for i := lo; i < hi; i++ {
+				c.At(i)
+				b2 := byte(i%255) + 1
+				r := i / 255
+				hf, hn, fl := byte(r%3), byte(r/3%16), int(r/48)
+				var pk [67]byte
+				pk[0], pk[1], pk[2] = hf, hn, b2
+				copy(pk[3:], fill(64, 2+fl, c.Seed))
+				pk0 := pk
+				var addr [20]byte
+				var la [39]byte
+				out := drv.Call(func() { addr = xmss.GetXMSSAddressFromPK(pk) })
+				out2 := drv.Call(func() { la = xmss.GetLegacyXMSSAddressFromPK(pk) })
+				c.Eval(2)
+				c.Nontrivial(2)
+				want := append([]byte{hf, hn, 0}, shake256(32, pk0[:])[15:]...)
+				h1 := sha256.Sum256(pk0[:])
+				pre := append([]byte{hf, hn, 0}, h1[:]...)
+				h2 := sha256.Sum256(pre)
+				wantL := append(pre, h2[28:]...)
+				if out != "ok" || !bytes.Equal(addr[:], want) || !xmss.IsValidXMSSAddress(addr) {
+					c.Fail(i, "reserved-byte:xmss-addr-formula", map[string]any{"pk": drv.Hex(pk0[:]), "expected": drv.Hex(want), "observed": fmt.Sprint(out, " ", drv.Hex(addr[:]))})
+				}
+				if out2 != "ok" || !bytes.Equal(la[:], wantL) || !xmss.IsValidLegacyXMSSAddress(la) {
+					c.Fail(i, "reserved-byte:legacy-derivation", map[string]any{"pk": drv.Hex(pk0[:]), "expected": drv.Hex(wantL), "observed": fmt.Sprint(out2, " ", drv.Hex(la[:]))})
+				}
+				if pk != pk0 {
+					c.Fail(i, "reserved-byte:mutated-input", nil)
+				}
+				c.Outcome("ok")
+			}
+		}})
 	// 4. real keys + dilithium
 	ck.Domains = append(ck.Domains, &drv.Domain{Name: "real-keys", Size: 3 + 2 + 4, Chunk: 1, Desc: "addresses of real XMSS keys (3 hash functions), real Dilithium keys, Dilithium pk fills",
 		Run: func(c *drv.Ctx, lo, hi int64) {
